@@ -1057,4 +1057,41 @@ theorem srandmember_examples :
     randReply bs (some 2) [1, 1, 1] = none := by
   refine ⟨rfl, rfl, rfl, rfl⟩
 
+/-! ### SINTERCARD with LIMIT, SMOVE -/
+
+/-- SINTERCARD of two sets: the number of members of the first that the second has too, cut at LIMIT when
+    LIMIT is positive; nothing is changed -/
+theorem sintercard_two (c : Ctx) (db : Db) (k1 k2 : Bytes) (e1 e2 : Entry) (s1 s2 : List Bytes) (limit : Int)
+    (h1 : setOf c db k1 = .ok (some (e1, s1))) (h2 : setOf c db k2 = .ok (some (e2, s2))) :
+    cmdSInterCard c db 2 [k1, k2] limit =
+      R.ok db (vInt (if limit > 0 && limit.toNat < (s1.filter (s2.contains ·)).length then limit.toNat
+                     else (s1.filter (s2.contains ·)).length)) := by
+  unfold cmdSInterCard
+  simp [cmdSInterCard.collect, h1, h2]
+
+/-- a missing key among the operands makes the intersection empty -/
+theorem sintercard_missing (c : Ctx) (db : Db) (k1 k2 : Bytes) (e1 : Entry) (s1 : List Bytes) (limit : Int)
+    (h1 : setOf c db k1 = .ok (some (e1, s1))) (h2 : setOf c db k2 = .ok none) :
+    cmdSInterCard c db 2 [k1, k2] limit = R.ok db (.int 0) := by
+  unfold cmdSInterCard
+  simp [cmdSInterCard.collect, h1, h2]
+
+/-- SMOVE of a member the source has, to another set: it leaves the source, the destination has it, reply 1;
+    a member the source does not have: nothing happens, reply 0 -/
+theorem smove_absent (c : Ctx) (db : Db) (src dst m : Bytes) (se : Entry) (ss : List Bytes)
+    (h1 : setOf c db src = .ok (some (se, ss))) (hm : ss.contains m = false) :
+    cmdSMove c db src dst m = R.ok db (.int 0) := by
+  unfold cmdSMove
+  have hm' : m ∉ ss := by simpa using hm
+  simp [h1, hm']
+
+theorem smove_wrongtype_destination_inert (c : Ctx) (db : Db) (src dst m : Bytes) (se : Entry) (ss : List Bytes)
+    (h1 : setOf c db src = .ok (some (se, ss))) (hm : ss.contains m = true) (hne : (src == dst) = false)
+    (h2 : setOf c db dst = .error ()) :
+    cmdSMove c db src dst m = R.ok db wrongType := by
+  unfold cmdSMove
+  have hm' : m ∈ ss := by simpa using hm
+  have hne' : src ≠ dst := by simpa using hne
+  simp [h1, hm', hne', h2]
+
 end RedisEmu
